@@ -8,7 +8,7 @@ import petl as etl
 from hypothesis import strategies as st
 
 from pv import gen, codec
-from pv.core import Sub, Fail, exc_fail
+from pv.core import Sub, Fail, exc_fail, two_iterators
 from pv.order import ref_cmp
 from pv.ref import base as R
 
@@ -294,6 +294,19 @@ def slice_cases(tier):
         yield {"fn": "tail-default", "n": n, "args": []}
 
 
+class _Diverged(Exception):
+    pass
+
+
+def _rows3(view):
+    """Rows of a single pass; two interleaved iterators over the same view (one a row ahead) must see the same."""
+    got = [tuple(r) for r in view]
+    ra, rb = two_iterators(view, lag=1)
+    if ra != got or rb != got:
+        raise _Diverged("a single pass gave %r, two interleaved iterators over the same view %r and %r" % (got, ra, rb))
+    return got
+
+
 def check_slice(case, ctx):
     n, fn, args = case["n"], case["fn"], case["args"]
     tbl = [["a", "b"]] + [[i, "r%d" % i] if i % 2 else [i] for i in range(n)]
@@ -305,23 +318,25 @@ def check_slice(case, ctx):
                 exp = rows
             else:
                 exp = list(itertools.islice(rows, *args)) if args else rows
-            got = [tuple(r) for r in etl.rowslice(tbl, *args)]
+            got = _rows3(etl.rowslice(tbl, *args))
         elif fn == "head":
-            exp, got = rows[:args[0]], [tuple(r) for r in etl.head(tbl, args[0])]
+            exp, got = rows[:args[0]], _rows3(etl.head(tbl, args[0]))
         elif fn == "head-default":
-            exp, got = rows[:5], [tuple(r) for r in etl.head(tbl)]
+            exp, got = rows[:5], _rows3(etl.head(tbl))
         elif fn == "tail":
-            exp, got = (rows[-args[0]:] if args[0] else []), [tuple(r) for r in etl.tail(tbl, args[0])]
+            exp, got = (rows[-args[0]:] if args[0] else []), _rows3(etl.tail(tbl, args[0]))
         elif fn == "tail-default":
-            exp, got = rows[-5:], [tuple(r) for r in etl.tail(tbl)]
+            exp, got = rows[-5:], _rows3(etl.tail(tbl))
         else:
             allrows = [hdr] + rows
             exp_all = allrows[args[0]:]
-            got = [tuple(r) for r in etl.skip(tbl, args[0])]
+            got = _rows3(etl.skip(tbl, args[0]))
             ctx.nontrivial(n >= 2 and 0 < len(exp_all) < len(allrows))
             if got != exp_all:
                 return Fail("skip/rows", "skip(%d) on %d rows gave %r expected %r" % (args[0], n, got, exp_all))
             return None
+    except _Diverged as ex:
+        return Fail(fn.split("-")[0].rstrip("0123") + "/iterators-diverge", str(ex))
     except Exception as ex:
         return exc_fail(fn, ex)
     ctx.label("fn:" + fn)
